@@ -134,6 +134,8 @@ class RateLimiter:
                 ip
                 for ip, bucket in self.buckets.items()
                 if now - bucket.last_update > 600  # 10 minutes idle
+                and bucket.tokens + (now - bucket.last_update) * bucket.refill_rate
+                >= bucket.capacity  # and refilled: eviction must not add allowance
             ]
 
             for ip in to_remove:
